@@ -21,6 +21,23 @@ class ClassInfo:
     properties: Set[str] = field(default_factory=set)
 
 
+class ClassRef:
+    """a class of the analysed package used as a value in a constant expression"""
+    __slots__ = ("name",)
+
+    def __init__(self, name):
+        self.name = name
+
+    def __repr__(self):
+        return self.name
+
+    def __eq__(self, o):
+        return isinstance(o, ClassRef) and o.name == self.name
+
+    def __hash__(self):
+        return hash(("ClassRef", self.name))
+
+
 class PyModel:
     def __init__(self, root: Path):
         self.root = Path(root)
@@ -404,7 +421,12 @@ class PyModel:
         if isinstance(node, ast.Constant):
             return node.value
         if isinstance(node, ast.Name):
+            if node.id not in env and node.id in getattr(self, "classes", {}):
+                return ClassRef(node.id)        # a class of the package, as a value (tables of classes, `cls.__name__`)
             return env.get(node.id, U)
+        if isinstance(node, ast.Attribute) and node.attr == "__name__":
+            v = ev(node.value)
+            return v.name if isinstance(v, ClassRef) else U
         if isinstance(node, (ast.Attribute, ast.Call, ast.Subscript)) and env.get("__by_text__"):
             # symbolic placeholders keyed by source text, e.g. {"self.ident": "{ident}"}
             k = ast.unparse(node)
@@ -532,6 +554,15 @@ class PyModel:
                     ((a in b) if isinstance(op, ast.In) else (a not in b))
             except Exception:
                 return U
+        if isinstance(node, ast.Subscript) and isinstance(node.slice, ast.Slice):
+            a = ev(node.value)
+            parts = [None if x is None else ev(x) for x in (node.slice.lower, node.slice.upper, node.slice.step)]
+            if a is U or any(x is U for x in parts):
+                return U
+            try:
+                return a[slice(*parts)]
+            except Exception:
+                return U
         if isinstance(node, ast.Subscript):
             a, i = ev(node.value), ev(node.slice) if not isinstance(node.slice, ast.Slice) else U
             if a is U or i is U:
@@ -586,6 +617,8 @@ class PyModel:
                     return dict.fromkeys(*args)
                 if cn == "str" and len(args) == 1:
                     return str(args[0])
+                if cn == "len" and len(args) == 1 and not kws:
+                    return len(args[0])
                 if cn in ("str.maketrans",):
                     return str.maketrans(*args)
                 if cn in ("chain", "itertools.chain"):
